@@ -16,6 +16,7 @@
 #include <string.h>
 #include <sys/stat.h>
 #include <sys/types.h>
+#include <time.h>
 #include <unistd.h>
 
 static int g_ctl = -1;
@@ -319,6 +320,120 @@ static void step_echo(int probe)
   else reply(moved ? ST_PROGRESS : ST_BLOCKED, g_echo_total, NULL, 0);
 }
 
+/* ---- autonomous mode (free-running validation): the whole script runs by itself, `gap` ms before each step, with
+ * blocking I/O like an ordinary program; a report of what was read/written is sent before the process ends ---- */
+static char *a_in;
+static size_t a_in_n, a_in_cap;
+static int a_in_eof;
+
+static void a_append(const char *d, size_t n)
+{
+  if (a_in_n + n > a_in_cap) {
+    a_in_cap = a_in_cap ? a_in_cap * 2 : 4096;
+    while (a_in_cap < a_in_n + n) a_in_cap *= 2;
+    a_in = realloc(a_in, a_in_cap);
+    if (!a_in) die(96);
+  }
+  memcpy(a_in + a_in_n, d, n);
+  a_in_n += n;
+}
+
+static void a_report(void)
+{
+  struct vc_rep r = { ST_DATA, (int) (a_in_n + 16) };
+  uint32_t hdr[4] = { g_woff[1], g_woff[2], (uint32_t) a_in_eof, (uint32_t) g_echo_total };
+  xwrite(&r, sizeof r);
+  xwrite(hdr, sizeof hdr);
+  if (a_in_n) xwrite(a_in, a_in_n);
+}
+
+static void msleep(int ms)
+{
+  struct timespec ts = { ms / 1000, (long) (ms % 1000) * 1000000 };
+  while (nanosleep(&ts, &ts) < 0 && errno == EINTR) {}
+}
+
+static void autonomous(int gap, const struct vc_cmd *steps, int n)
+{
+  static char chunk[65536];
+  for (int i = 0; i < n; i++) {
+    const struct vc_cmd *c = &steps[i];
+    msleep(gap);
+    switch (c->op) {
+      case 'W': {
+        int fd = c->a, left = c->b, sidx = fd >= 0 && fd < 3 ? fd : 0;
+        if (left == 0) (void) !write(fd, chunk, 0);
+        while (left > 0) {
+          int k = left > (int) sizeof chunk ? (int) sizeof chunk : left;
+          for (int j = 0; j < k; j++) chunk[j] = (char) vc_pat(fd, g_woff[sidx] + (uint32_t) j);
+          ssize_t w = write(fd, chunk, (size_t) k);
+          if (w < 0) { if (errno == EINTR) continue; break; }
+          g_woff[sidx] += (uint32_t) w;
+          left -= (int) w;
+        }
+        break;
+      }
+      case 'R': {
+        int want = c->a, got = 0;
+        for (;;) {
+          if (want >= 0 && got >= want) break;
+          size_t k = want < 0 ? sizeof chunk : (size_t) (want - got);
+          if (k > sizeof chunk) k = sizeof chunk;
+          ssize_t r = read(0, chunk, k);
+          if (r < 0) { if (errno == EINTR) continue; break; }
+          if (r == 0) { a_in_eof = 1; break; }
+          a_append(chunk, (size_t) r);
+          got += (int) r;
+        }
+        break;
+      }
+      case 'E':
+        for (;;) {
+          ssize_t r = read(0, chunk, sizeof chunk);
+          if (r < 0) { if (errno == EINTR) continue; break; }
+          if (r == 0) break;
+          ssize_t off = 0;
+          while (off < r) {
+            ssize_t w = write(1, chunk + off, (size_t) (r - off));
+            if (w < 0) { if (errno == EINTR) continue; off = r; break; }
+            off += w;
+            g_echo_total += (int) w;
+          }
+        }
+        break;
+      case 'C': case 'D': close(c->a); break;
+      case 'Z':
+        for (int fd = 0; fd < 256; fd++) if (fd != g_ctl) close(fd);
+        break;
+      case 'S': {
+        struct sigaction sa;
+        memset(&sa, 0, sizeof sa);
+        sigemptyset(&sa.sa_mask);
+        sa.sa_handler = c->b == 'I' ? SIG_IGN : c->b == 'H' ? on_signal : SIG_DFL;
+        sigaction(c->a, &sa, NULL);
+        break;
+      }
+      case 'X':
+        a_report();
+        _exit(c->a);
+      case 'T':
+        while (g_sig[c->a] == 0) pause();
+        /* fall through */
+      case 'K': {
+        sigset_t ss;
+        a_report();
+        signal(c->a, SIG_DFL);
+        sigemptyset(&ss);
+        sigaddset(&ss, c->a);
+        sigprocmask(SIG_UNBLOCK, &ss, NULL);
+        raise(c->a);
+        break;
+      }
+    }
+  }
+  a_report();
+}
+
 void vchild_run(int ctl, int image, char *const *argv, char *const *envp)
 {
   g_ctl = ctl;
@@ -379,6 +494,16 @@ void vchild_run(int ctl, int image, char *const *argv, char *const *envp)
         sa.sa_handler = c.b == 'I' ? SIG_IGN : c.b == 'H' ? on_signal : SIG_DFL;
         if (sigaction(c.a, &sa, NULL) < 0) reply(ST_ERR, errno, NULL, 0);
         else reply(ST_DONE, 0, NULL, 0);
+        break;
+      }
+      case 'A': {
+        /* hand over the rest of the script: c.a = gap in ms, c.b = number of steps that follow */
+        int n = c.b;
+        struct vc_cmd *steps = calloc((size_t) n + 1, sizeof *steps);
+        if (n && xread(steps, (size_t) n * sizeof *steps) <= 0) die(98);
+        reply(ST_DONE, 0, NULL, 0);
+        autonomous(c.a, steps, n);
+        free(steps);
         break;
       }
       case 'Q': {
